@@ -705,6 +705,14 @@ POSTFIX = [(".f", lambda x: "(Selector %s (Ident s:f))" % x),
            ("()", lambda x: "(Call %s (List) (None))" % x)]
 
 
+OPERANDS = [("1", "(BasicLit l:N s:1)"), ("1.5", "(BasicLit l:F s:1.5)"), ("2i", "(BasicLit l:M s:2i)"), ("'c'", "(BasicLit l:R s:'c')"),
+            ('"s"', '(BasicLit l:S s:"s")'), ("`r`", "(BasicLit l:S s:`r`)"), ("(a)", "(Paren (Ident s:a))"),
+            ("T{}", "(CompositeLit (Ident s:T) (LiteralValue))"), ("func(){}", "(FuncLit (FuncType (FieldList) (FieldList) (FieldList)) (Block))"),
+            ("[]int(a)", "(Call (TypeSlice (Ident s:int)) (List (Ident s:a)) (None))"),
+            ("map[K]V{}", "(CompositeLit (TypeMap (Ident s:K) (Ident s:V)) (LiteralValue))"),
+            ("a.b", "(Selector (Ident s:a) (Ident s:b))"), ("a[0]", "(Index (Ident s:a) (BasicLit l:N s:0))")]
+
+
 def group_spec(items):
     """items: operand shape strings alternating with binary operator strings; returns the shape the Go spec
     dictates (5 levels, left associative), by the textbook shunting reduction — independent of the crate"""
@@ -758,6 +766,20 @@ def ops_cases(quadruples=False, seed=1, nrandom=500):
                 continue
             cases.append(Case("%s %s a" % (u, u2), "F-ops-unary",
                               expected="(Operation o:%s (Operation o:%s %s (None)) (None))" % (u, u2, _id(0))))
+    # unary operators bind to the whole primary expression, whatever its operand is: every operand kind (literals of
+    # every kind, parenthesised, composite and function literals, conversions) x postfix form x unary operator, alone
+    # and as either operand of a binary operator
+    for otext, oshape in OPERANDS:
+        for text, mk in POSTFIX:
+            prim, pshape = otext + " " + text, mk(oshape)
+            cases.append(Case(prim, "F-ops-operand", expected=pshape))
+            for u in UNOPS:
+                ushape = "(Operation o:%s %s (None))" % (u, pshape)
+                cases.append(Case("%s %s" % (u, prim), "F-ops-operand", expected=ushape))
+                cases.append(Case("%s%s" % (u, prim.replace(" ", "", 1)) if not otext[0].isdigit() else "%s%s" % (u, prim), "F-ops-operand", expected=ushape))
+                for o in ("+", "*", "||", "&^"):
+                    cases.append(Case("z %s %s %s" % (o, u, prim), "F-ops-operand", expected=group_spec(["(Ident s:z)", o, ushape])))
+                    cases.append(Case("%s %s %s z" % (u, prim, o), "F-ops-operand", expected=group_spec([ushape, o, "(Ident s:z)"])))
     # redundant and needed parentheses
     rng = random.Random(seed)
     for _ in range(nrandom):
